@@ -13,6 +13,7 @@ import Mfi.Lemmas.SkelL
 import Mfi.Gen.Oracles
 import Mfi.Model.Integr
 import Mfi.Lemmas.ConstL
+import Mfi.Lemmas.WorldL
 
 namespace Mfi.Props.C09
 open Mfi Mfi.Fx Mfi.Risk Mfi.Gen
@@ -514,5 +515,39 @@ theorem switchboard_and_default_numbers :
     (Mfi.Gen.STD_DEV_MULTIPLE * 100 - 196 * ONE).natAbs < 100 ∧
     Mfi.Gen.U32_MAX_FX = 4294967295 * ONE ∧ (Mfi.Gen.U32_MAX_DIV_10_FX * 10 - Mfi.Gen.U32_MAX_FX).natAbs < 10 * ONE ∧
     Mfi.Gen.MAX_PYTH_ORACLE_AGE = 60 := by decide
+
+section whole_instructions
+open Mfi Mfi.World Mfi.Gen
+
+/-! ### whole instructions (Mfi/Model/World.lean): no collateral leaves an account in receivership at a zero or negative price -/
+
+/-- **world_receivership_withdraw_needs_positive_price**: a withdrawal from an account in receivership (a liquidator's or the
+    risk admin's seizure) goes through only when the real-time, LOW-biased price of the withdrawn bank — taken from the feed the
+    risk engine was handed for THAT bank, within the bank's own confidence bound — is defined and strictly positive -/
+theorem world_receivership_withdraw_needs_positive_price {c : Ctx} {amt : Int} {all : Bool} {o : Out}
+    (h : World.withdraw c amt all = .ok o) (hr : flag c ACCOUNT_IN_RECEIVERSHIP = true) :
+    ∃ rb p, c.risk.find? (·.key == c.b.key) = some rb ∧
+      Mfi.Risk.priceOfType rb.feed .realTime (some .low) rb.r.maxConf = .ok p ∧ 0 < p := by
+  obtain ⟨price, b, i, s, x', pre, hp, _⟩ := (withdraw_ok h).core
+  unfold withdrawPrice at hp
+  rw [hr] at hp
+  simp only [if_true] at hp
+  unfold receivershipPrice at hp
+  cases hf : c.risk.find? (·.key == c.b.key) with
+  | none => rw [hf] at hp; cases hp
+  | some rb =>
+    rw [hf] at hp
+    obtain ⟨p, hpp, hp⟩ := Res.bind_ok hp
+    split at hp
+    · rename_i hpos
+      exact ⟨rb, p, rfl, hpp, hpos⟩
+    · cases hp
+
+/-- … and outside receivership the withdrawal is not metered by any price (the initial-margin check that follows values the
+    whole portfolio with the engine's own fail-closed rules: C04) -/
+theorem world_plain_withdraw_fetches_no_price {c : Ctx} (hr : flag c ACCOUNT_IN_RECEIVERSHIP = false) : withdrawPrice c = .ok 0 := by
+  unfold withdrawPrice; rw [hr]; rfl
+
+end whole_instructions
 
 end Mfi.Props.C09
